@@ -52,6 +52,9 @@ def norm_value(v, ftype, fmt):
 def value_eq(got, exp, ftype, fmt):
     if exp is None or got is None:
         return exp is None and got is None
+    if ftype == 'any':
+        # an untyped field: a CSV file carries the text of the value (there is no type to decode it with), JSON the native
+        return str(got) == str(exp) if fmt != 'json' else val_eq(got, exp)
     if ftype == 'number':
         if isinstance(got, bool) or not isinstance(got, (int, float, decimal.Decimal)):
             return False
